@@ -123,7 +123,16 @@ func c09Open(t *testing.T) (*c09Machine, *rand.Rand, func()) {
 
 func (m *c09Machine) emit(e c09Ev) { m.enc.Encode(e); m.n++ }
 
-func c09Lock() int { return int(*(*uint32)(unsafe.Pointer(&bitmapAllocator.mutex))) }
+// Is the allocator's lock taken ?  Asked through the lock's own API (an observer's TryToAcquire, given back at
+// once), never by interpreting the lock word: how the word encodes "held" is the lock's business.  Only used
+// at points where no allocator call is in progress.
+func c09Lock() int {
+	if bitmapAllocator.mutex.TryToAcquire() {
+		bitmapAllocator.mutex.Release()
+		return 0
+	}
+	return 1
+}
 
 func (m *c09Machine) counters(e c09Ev) {
 	e["total"] = int(bitmapAllocator.totalPages)
@@ -131,25 +140,52 @@ func (m *c09Machine) counters(e c09Ev) {
 	e["lock"] = c09Lock()
 }
 
-// initPools runs the real pmm.Init on a map whose available regions hold the given numbers of whole
-// frames (plus one kernel frame and the allocator's own page in the first region) and logs `init`.
+// initPools runs the real pmm.Init on a sorted map whose available regions hold about the given numbers of free
+// frames and logs `init`.  Nothing about the map is "nice": the kernel image (1-3 frames, end possibly not page
+// aligned) sits at a random offset of a random region, a region may be used up completely by the kernel and the
+// allocator's own page (a pool without a single free frame), region bounds may carry partial pages on either
+// side, reserved regions may sit in the gaps.  What is free afterwards is the monitor's business (PmmProps).
 func (m *c09Machine) initPools(sizes []int, rng *rand.Rand) bool {
 	m.regs = nil
+	kr, klen := rng.Intn(len(sizes)), 1+rng.Intn(3)
+	if rng.Intn(3) == 0 {
+		kr = 0
+	}
+	koff := rng.Intn(sizes[kr] + 1)
+	if rng.Intn(3) == 0 {
+		koff = sizes[kr] // the image ends the region
+	}
+	ragged := rng.Intn(3) == 0
 	cur := uint64(0x100000) + uint64(rng.Intn(8))*0x1000
+	var ks uint64
 	for i, n := range sizes {
-		extra := 0
+		frames := n
 		if i == 0 {
-			extra = 2 // kernel image frame + the frame the boot allocator hands out for the bitmaps
+			frames++ // the page the boot allocator hands out for the bitmaps
 		}
-		m.regs = append(m.regs, c09Region{cur, uint64(n+extra) * 4096, 1})
-		cur += uint64(n+extra)*4096 + uint64(1+rng.Intn(3))*0x1000
+		if i == kr {
+			ks = cur + uint64(koff)*4096
+			if i == 0 && koff > 0 {
+				ks += 4096 // the boot allocator's page comes first
+			}
+			frames += klen
+		}
+		lead, tail := uint64(0), uint64(0)
+		if ragged {
+			lead, tail = uint64(rng.Intn(4096)), uint64(rng.Intn(4096))
+		}
+		m.regs = append(m.regs, c09Region{cur - lead, lead + uint64(frames)*4096 + tail, 1})
+		cur += uint64(frames)*4096 + uint64(2+rng.Intn(3))*0x1000
 		if rng.Intn(3) == 0 { // a reserved region in the gap
 			m.regs = append(m.regs, c09Region{cur, 0x1000, 2})
-			cur += 0x2000
+			cur += 0x3000
 		}
 	}
-	m.ks = m.regs[0].addr + uint64(sizes[0]+1)*4096 // kernel in the last frame of the first region
-	ke := m.ks + 4096
+	m.ks = ks
+	ke := ks + uint64(klen)*4096
+	if rng.Intn(2) == 0 {
+		ke -= uint64(rng.Intn(4095))
+	}
 	m.info = c09BuildInfo(m.regs)
 	multiboot.SetInfoPtr(uintptr(unsafe.Pointer(&m.info[0])))
 	bootMemAllocator = BootMemAllocator{}
@@ -382,7 +418,7 @@ func TestVerifC09Gate(t *testing.T) {
 	for c := 0; c < ncases; c++ {
 		var ok bool
 		if c%2 == 0 {
-			ok = m.initPools([][]int{{3}, {2, 1}, {1, 2, 1}, {64, 2}, {65}, {4, 3}}[(c/2)%6], rng)
+			ok = m.initPools([][]int{{20, 17}, {3}, {2, 1}, {33, 31, 12}, {0, 2}, {1, 2, 1}, {64, 2}, {65}, {70, 9, 40, 11}, {4, 3}, {0, 1, 0}, {128, 1}}[(c/2)%12], rng)
 		} else {
 			ok = m.initDirect(c09Layouts[(c/2)%len(c09Layouts)])
 		}
@@ -462,7 +498,22 @@ type c09Rec struct {
 }
 
 func c09PoolSizes(rng *rand.Rand) []int {
-	switch rng.Intn(6) {
+	switch rng.Intn(12) {
+	case 9, 10: // 2-4 regions of 9..70 frames: the bitmaps pmm.Init lays out side by side
+		n := 2 + rng.Intn(3)
+		out := make([]int, n)
+		for i := range out {
+			out[i] = 9 + rng.Intn(62)
+		}
+		return out
+	case 11:
+		return []int{65 + rng.Intn(10), 20 + rng.Intn(20)}
+	case 6: // a first pool without a free frame
+		return []int{0, 1 + rng.Intn(3)}
+	case 7: // two bitmap words
+		return []int{126 + rng.Intn(5)}
+	case 8:
+		return []int{0, 63 + rng.Intn(3), 0}
 	case 0:
 		return []int{1 + rng.Intn(3)}
 	case 1:
@@ -496,7 +547,10 @@ func TestVerifC09Windows(t *testing.T) {
 		nops = 6
 	}
 	for w := 0; w < nwin; w++ {
-		nth := []int{2, 3, 4, 6, 8, 16, 12, 16}[master.Intn(8)]
+		nth := []int{2, 3, 4, 6, 8, 16, 12, 16, 1}[master.Intn(9)]
+		// call mix of the window: balanced / allocation storm / free-happy
+		freeUpTo := []int{9, 3, 14}[master.Intn(3)]
+		pub := make([]uint64, nth) // last frame each caller obtained (read by the others: cross-caller frees)
 		if !m.setup(w, master, false) {
 			m.emit(c09Ev{"k": "reset"})
 			continue
@@ -524,7 +578,7 @@ func TestVerifC09Windows(t *testing.T) {
 				for i := 0; i < nops; i++ {
 					r := rng.Intn(20)
 					switch {
-					case r < 9 && len(held) > 0, r < 12 && len(held) > 2:
+					case r < freeUpTo && len(held) > 0, r < 12 && len(held) > 2:
 						j := rng.Intn(len(held))
 						f := held[j]
 						held = append(held[:j], held[j+1:]...)
@@ -535,10 +589,13 @@ func TestVerifC09Windows(t *testing.T) {
 						s1 := atomic.AddInt64(&seq, 1)
 						c["res"] = res
 						local = append(local, c09Rec{s0, c}, c09Rec{s1, c09Ev{"k": "ret", "t": th}})
-					case r == 12 || (r == 13 && len(freed) > 0):
+					case r == 12 || (r == 13 && len(freed) > 0) || (r == 14 && nth > 1):
 						f := bad[th]
 						if r == 13 {
 							f = freed[rng.Intn(len(freed))] // freed earlier: free again (whatever happened to it since)
+						}
+						if r == 14 { // a frame ANOTHER caller obtained (it may hold it, may have freed it, may not have any yet)
+							f = mm.Frame(atomic.LoadUint64(&pub[(th+1+rng.Intn(nth-1))%nth]))
 						}
 						c := c09Ev{"k": "call", "t": th, "op": "free", "f": c09W64(uint64(f))}
 						s0 := atomic.AddInt64(&seq, 1)
@@ -554,6 +611,7 @@ func TestVerifC09Windows(t *testing.T) {
 						c["res"], c["f"] = res, c09W64(uint64(f))
 						if res == "ok" {
 							held = append(held, f)
+							atomic.StoreUint64(&pub[th], uint64(f))
 						}
 						local = append(local, c09Rec{s0, c}, c09Rec{s1, c09Ev{"k": "ret", "t": th}})
 					}
@@ -619,10 +677,14 @@ func TestVerifC09Stress(t *testing.T) {
 	}
 	totalOps := int64(0)
 	for run := 0; run < nruns; run++ {
-		nth := []int{16, 16, 8, 4, 2, 16, 12, 3}[run%8]
+		nth := []int{16, 16, 8, 4, 2, 16, 12, 3, 1}[run%9]
+		// call mix: balanced / allocation-heavy (large holdings, long OOM storms) / free-heavy / phased
+		// (everybody allocates until the pools are dry, then everybody frees)
+		mix := (run/2 + int(m.seed)) % 4
+		freePct, maxHeld := []int{48, 20, 75, 0}[mix], []int{8, 40, 4, 1 << 30}[mix]
 		var ok bool
 		if run%2 == 0 {
-			ok = m.initPools([][]int{{70}, {1}, {2, 1}, {64}, {65, 3}, {3}, {33, 31}, {1, 1, 1}}[master.Intn(8)], master)
+			ok = m.initPools([][]int{{33, 31}, {70}, {20, 17, 12}, {1}, {65, 30}, {2, 1}, {70, 9, 40, 11}, {64}, {35, 14}, {3}, {0, 22, 13}, {128}, {1, 1, 1}, {0, 65, 0}}[(run/2+int(m.seed))%14], master)
 		} else {
 			ok = m.initDirect(c09Layouts[(run/2+int(m.seed))%(len(c09Layouts)-3)])
 		}
@@ -667,7 +729,11 @@ func TestVerifC09Stress(t *testing.T) {
 				c09Barrier(&ready, nth)
 				for i := 0; i < nops; i++ {
 					r := rng.Intn(100)
-					if len(held) > 0 && (r < 48 || len(held) > 8) {
+					wantFree := r < freePct || len(held) > maxHeld
+					if mix == 3 {
+						wantFree = i >= nops/2 && r < 90
+					}
+					if len(held) > 0 && wantFree {
 						j := rng.Intn(len(held))
 						f := held[j]
 						held = append(held[:j], held[j+1:]...)
